@@ -4,30 +4,30 @@ Open Scope string_scope. Open Scope list_scope.
 
 Definition walk_faulty := walk_under_fault c06_ctx_err_returned c06_root_err_checked.
 
-(* every fault but an error of the root is reported, or came too late to matter *)
-Lemma fault_reported_or_complete : forall ev f ft, ft <> FErrRoot ->
+(* every fault is reported, or came too late to matter (after the last entry) *)
+Lemma fault_reported_or_complete : forall ev f ft,
   walk_faulty ev f ft = Err \/ walk_faulty ev f ft = Ok (walk ev f).
 Proof.
-  intros ev f ft H. unfold walk_faulty, walk_under_fault.
-  change c06_ctx_err_returned with true.
+  intros ev f ft. unfold walk_faulty, walk_under_fault.
+  change c06_ctx_err_returned with true. change c06_root_err_checked with true.
   destruct ft as [|k|k|].
   - left; reflexivity.
   - destruct (k <? List.length (walk ev f))%nat; [left | right]; reflexivity.
   - left; reflexivity.
-  - contradiction.
+  - left; reflexivity.
 Qed.
 
 Definition w_one : forest := [("f", File m0 (LReg 1 1) None)].
 
-(* an error of Stat/ReadDir of the root: reported when the callback tests the
-   error before it skips ".", dropped (nothing yielded, no error) when it tests it
-   after — stated for both orders so that the repair of C06-F6 keeps it provable *)
-Lemma fault_root :
-  if c06_root_err_checked
-  then forall ev f, walk_faulty ev f FErrRoot = Err
-  else walk_faulty env_nohdr w_one FErrRoot = Ok [] /\ walk env_nohdr w_one <> [] /\ validate [] [] w_one [] <> [].
-Proof.
-  unfold walk_faulty, walk_under_fault. destruct c06_root_err_checked.
-  - intros. reflexivity.
-  - split; [reflexivity|]. split; [discriminate | vm_compute; discriminate].
-Qed.
+(* the order of the callback's tests before commit 13a240b (`path == "."` before
+   `err != nil`): an error of Stat/ReadDir of the root was dropped — nothing
+   yielded, no error *)
+Lemma fault_root_before_fix :
+  walk_under_fault true false env_nohdr w_one FErrRoot = Ok [] /\ walk env_nohdr w_one <> [] /\ validate [] [] w_one [] <> [].
+Proof. split; [reflexivity|]. split; [discriminate | vm_compute; discriminate]. Qed.
+
+(* … and a callback that ends the walk on a cancelled context instead of
+   returning its error yields a proper prefix of the walk without error *)
+Lemma fault_cancel_swallowed_hypothetical :
+  walk_under_fault false true env_nohdr w_one FCancelBefore = Ok [] /\ walk env_nohdr w_one <> [].
+Proof. split; [reflexivity | discriminate]. Qed.
